@@ -18,9 +18,11 @@
 #include <limits>
 #include <memory>
 #include <optional>
+#include <tuple>
 #include <type_traits>
 #include <utility>
 #include <variant>
+#include <vector>
 
 using proto::Line;
 
@@ -1430,9 +1432,255 @@ struct SelCfg final : Cfg {
     std::string step(Line const& l) override;
 };
 
+// ---------------------------------------------------------------- visit over arguments of DIFFERENT types
+// `new kind=mv`, `mvis k=[K,..] act=[A,..] v=[N,..] q=[Q,..] idx=0|1`: etl::visit / etl::visit_with_index over one to four
+// arguments, argument j of kind K_j (0 = a non-variant int, 1..4 = a variant with that many alternatives: every argument has
+// its OWN variant type and alternative count), holding alternative A_j made from N_j, passed with value category Q_j.  The
+// visitor takes forwarding references and reports, per argument, the reference kind, the STATIC type (the overload of show
+// that is selected) and the value.  Reference: std::visit over std::variants of the same alternatives (a non-variant argument
+// is handed on unchanged: a one-alternative variant on the std side).
+template <int K>
+struct MvK;
+template <>
+struct MvK<0> {
+    using E  = int;
+    using S  = std::variant<int>;
+    using Ts = std::tuple<int>;
+};
+template <>
+struct MvK<1> {
+    using E  = etl::variant<long>;
+    using S  = std::variant<long>;
+    using Ts = std::tuple<long>;
+};
+template <>
+struct MvK<2> {
+    using E  = etl::variant<int, Trk>;
+    using S  = std::variant<int, Trk>;
+    using Ts = std::tuple<int, Trk>;
+};
+template <>
+struct MvK<3> {
+    using E  = etl::variant<Trk, float, int>;
+    using S  = std::variant<Trk, float, int>;
+    using Ts = std::tuple<Trk, float, int>;
+};
+template <>
+struct MvK<4> {
+    using E  = etl::variant<float, int, long, Trk>;
+    using S  = std::variant<float, int, long, Trk>;
+    using Ts = std::tuple<float, int, long, Trk>;
+};
+
+template <int K>
+std::unique_ptr<typename MvK<K>::E> mv_make_e(std::size_t act, long long v)
+{
+    using E = typename MvK<K>::E;
+    std::unique_ptr<E> r;
+    if constexpr (K == 0) {
+        if (act == 0) { r = std::make_unique<E>(static_cast<int>(v)); }
+    } else {
+        with_index<std::tuple_size_v<typename MvK<K>::Ts>>(act, [&](auto I) {
+            constexpr auto i = decltype(I)::value;
+            r = std::make_unique<E>(etl::in_place_index<i>, mk<std::tuple_element_t<i, typename MvK<K>::Ts>>(v));
+        });
+    }
+    return r;
+}
+template <int K>
+std::unique_ptr<typename MvK<K>::S> mv_make_s(std::size_t act, long long v)
+{
+    using S = typename MvK<K>::S;
+    std::unique_ptr<S> r;
+    with_index<std::tuple_size_v<typename MvK<K>::Ts>>(act, [&](auto I) {
+        constexpr auto i = decltype(I)::value;
+        r = std::make_unique<S>(std::in_place_index<i>, mk<std::tuple_element_t<i, typename MvK<K>::Ts>>(v));
+    });
+    return r;
+}
+
+// forwarding visitor: reference kind, static type (overload of show) and value of every argument
+struct MvVis {
+    std::vector<std::string>* items;
+    int* calls;
+    template <typename... A>
+    int operator()(A&&... a) const
+    {
+        ++*calls;
+        (items->push_back(std::to_string(cat_code<A&&>()) + ":" + show(a)), ...);
+        return *calls;
+    }
+};
+// visit_with_index: additionally the static index of every indexed_value
+struct MvVisI {
+    std::vector<std::string>* items;
+    int* calls;
+    template <typename... P>
+    int operator()(P... p) const
+    {
+        ++*calls;
+        (items->push_back(std::to_string(p.index.value) + "=" + std::to_string(cat_code<decltype(std::move(p).value())>()) + ":"
+                          + show(p.value())),
+         ...);
+        return *calls;
+    }
+};
+template <int... Q>
+struct MvCats { };
+
+template <int... K>
+struct MvRun {
+    std::tuple<std::unique_ptr<typename MvK<K>::E>...> e;
+    std::tuple<std::unique_ptr<typename MvK<K>::S>...> s;
+
+    template <std::size_t... I>
+    bool make(std::vector<long long> const& act, std::vector<long long> const& val, std::index_sequence<I...> /*i*/)
+    {
+        if (((act[I] < 0) || ...)) { return false; }
+        e = {mv_make_e<K>(static_cast<std::size_t>(act[I]), val[I])...};
+        s = {mv_make_s<K>(static_cast<std::size_t>(act[I]), val[I])...};
+        return ((std::get<I>(e) != nullptr) && ...) && ((std::get<I>(s) != nullptr) && ...);
+    }
+    static std::string fmt(int calls, int ret, std::vector<std::string> const& items)
+    {
+        std::string r = "calls=" + std::to_string(calls) + " ret=" + std::to_string(ret) + " ";
+        for (auto const& it : items) { r += it + ","; }
+        return r + " |";
+    }
+    template <int... Q, std::size_t... I>
+    std::string go(bool idx, MvCats<Q...> /*q*/, std::index_sequence<I...> /*i*/)
+    {
+        std::vector<std::string> ie, is;
+        int ce = 0, cs = 0, re = 0, rs = 0;
+        if (idx) {
+            re = etl::visit_with_index(MvVisI {&ie, &ce}, as_cat<Q>(*std::get<I>(e))...);
+        } else {
+            re = etl::visit(MvVis {&ie, &ce}, as_cat<Q>(*std::get<I>(e))...);
+        }
+        rs = std::visit(MvVis {&is, &cs}, as_cat<Q>(*std::get<I>(s))...);
+        if (idx) {
+            std::size_t const ix[] = {std::get<I>(s)->index()...};
+            for (std::size_t k = 0; k < is.size() && k < sizeof...(I); ++k) { is[k] = std::to_string(ix[k]) + "=" + is[k]; }
+        }
+        return both(fmt(ce, re, ie), fmt(cs, rs, is));
+    }
+};
+
+// which (kinds, categories) combinations are compiled (the generator and the Lean driver use the same predicate)
+constexpr bool mv_q6(int a, int b) { return a == b || (a == 0 && b == 2) || (a == 3 && b == 1); }
+constexpr bool mv_ok2(int k0, int k1, int q0, int q1) { return (k0 == 3 && k1 == 2) || (k0 == 2 && k1 == 3) || mv_q6(q0, q1); }
+constexpr bool mv_ok3(int k0, int k1, int k2)
+{
+    int const z = (k0 == 0 ? 1 : 0) + (k1 == 0 ? 1 : 0) + (k2 == 0 ? 1 : 0);
+    auto in13   = [](int k) { return k >= 1 && k <= 3; };
+    auto z23    = [](int k) { return k == 0 || k == 2 || k == 3; };
+    if (z == 0) { return in13(k0) && in13(k1) && in13(k2); }
+    if (z == 1) { return z23(k0) && z23(k1) && z23(k2); }
+    return false;
+}
+
+template <int K0, bool Many>   // Many: three or four arguments (compiled in translation units of their own)
+std::string mv_step(Line const& l)
+{
+    auto const& ks = l.list("k");
+    auto const& as = l.list("act");
+    auto const& vs = l.list("v");
+    auto const& qs = l.list("q");
+    bool const idx = l.i("idx", 0) != 0;
+    std::size_t const n = ks.size();
+    if (n == 0 || n > 4 || as.size() != n || vs.size() != n || qs.size() != n || ks[0] != K0 || Many != (n > 2)) { return BAD; }
+    for (std::size_t j = 0; j < n; ++j) {
+        if (ks[j] < 0 || ks[j] > 4 || qs[j] < 0 || qs[j] > 3) { return BAD; }
+    }
+    std::string r = BAD;
+    auto sz       = [](long long x) { return static_cast<std::size_t>(x); };
+    if constexpr (!Many) {
+    if (n == 1) {
+        with_index<4>(sz(qs[0]), [&](auto Q0) {
+            MvRun<K0> m;
+            if (m.make(as, vs, std::make_index_sequence<1> {})) { r = m.go(idx, MvCats<decltype(Q0)::value> {}, std::make_index_sequence<1> {}); }
+        });
+    } else if (n == 2) {
+        with_index<5>(sz(ks[1]), [&](auto K1) {
+            with_index<4>(sz(qs[0]), [&](auto Q0) {
+                with_index<4>(sz(qs[1]), [&](auto Q1) {
+                    constexpr int k1 = decltype(K1)::value, q0 = decltype(Q0)::value, q1 = decltype(Q1)::value;
+                    if constexpr (mv_ok2(K0, k1, q0, q1)) {
+                        MvRun<K0, k1> m;
+                        if (m.make(as, vs, std::make_index_sequence<2> {})) { r = m.go(idx, MvCats<q0, q1> {}, std::make_index_sequence<2> {}); }
+                    }
+                });
+            });
+        });
+    }
+    } else if constexpr (K0 <= 3) {
+    if (n == 3) {
+        bool const c0 = qs[0] == 1 && qs[1] == 1 && qs[2] == 1;
+        bool const c1 = qs[0] == 2 && qs[1] == 0 && qs[2] == 3;
+        if (!c0 && !c1) { return BAD; }
+        with_index<4>(sz(ks[1]), [&](auto K1) {
+            with_index<4>(sz(ks[2]), [&](auto K2) {
+                constexpr int k1 = decltype(K1)::value, k2 = decltype(K2)::value;
+                if constexpr (mv_ok3(K0, k1, k2)) {
+                    MvRun<K0, k1, k2> m;
+                    if (m.make(as, vs, std::make_index_sequence<3> {})) {
+                        r = c0 ? m.go(idx, MvCats<1, 1, 1> {}, std::make_index_sequence<3> {})
+                               : m.go(idx, MvCats<2, 0, 3> {}, std::make_index_sequence<3> {});
+                    }
+                }
+            });
+        });
+    } else {
+        // four arguments: (3,2,2,3) and (2,2,3,3) only, categories (0,1,2,3)
+        if (!(qs[0] == 0 && qs[1] == 1 && qs[2] == 2 && qs[3] == 3)) { return BAD; }
+        if constexpr (K0 == 3) {
+            if (ks[1] == 2 && ks[2] == 2 && ks[3] == 3) {
+                MvRun<3, 2, 2, 3> m;
+                if (m.make(as, vs, std::make_index_sequence<4> {})) { r = m.go(idx, MvCats<0, 1, 2, 3> {}, std::make_index_sequence<4> {}); }
+            }
+        } else if constexpr (K0 == 2) {
+            if (ks[1] == 2 && ks[2] == 3 && ks[3] == 3) {
+                MvRun<2, 2, 3, 3> m;
+                if (m.make(as, vs, std::make_index_sequence<4> {})) { r = m.go(idx, MvCats<0, 1, 2, 3> {}, std::make_index_sequence<4> {}); }
+            }
+        }
+    }
+    }
+    return r;
+}
+std::string mv_part0(Line const& l);
+std::string mv_part1(Line const& l);
+std::string mv_part2(Line const& l);
+std::string mv_part3(Line const& l);
+std::string mv_part4(Line const& l);
+std::string mv_many0(Line const& l);
+std::string mv_many1(Line const& l);
+std::string mv_many2(Line const& l);
+std::string mv_many3(Line const& l);
+
+struct MvCfg final : Cfg {
+    std::string step(Line const& l) override
+    {
+        if (l.op == "state") { return both("ok |", "ok |"); }
+        if (l.op != "mvis" || !l.has("k") || !l.has("act") || !l.has("v") || !l.has("q")) { return BAD; }
+        auto const& ks = l.list("k");
+        if (ks.empty()) { return BAD; }
+        bool const many = ks.size() > 2;
+        switch (ks[0]) {
+        case 0: return many ? mv_many0(l) : mv_part0(l);
+        case 1: return many ? mv_many1(l) : mv_part1(l);
+        case 2: return many ? mv_many2(l) : mv_part2(l);
+        case 3: return many ? mv_many3(l) : mv_part3(l);
+        case 4: return many ? BAD : mv_part4(l);
+        default: return BAD;
+        }
+    }
+};
+
 // ---------------------------------------------------------------- dispatch
-// The configurations are instantiated in 11 groups so that the build can compile them in parallel:
-// -DC07_PART=k (k = 0..10) compiles only make_part<k>; -DC07_PART=-1 compiles main() and links the parts;
+// The configurations are instantiated in 19 groups so that the build can compile them in parallel:
+// -DC07_PART=k (k = 0..10) compiles only make_part<k>, k = 11..15 the multi-type visits over one or two arguments whose first argument has kind k - 11,
+// k = 16..18 those over three or four arguments; -DC07_PART=-1 compiles main() and links the parts;
 // without C07_PART everything is one translation unit.
 using Made = std::unique_ptr<Cfg>;
 Made make_part0(std::string const& kind, std::string const& alts, std::size_t n);
@@ -1603,6 +1851,33 @@ std::string SelCfg::step(Line const& l)
 }
 #endif
 
+#if !defined(C07_PART) || C07_PART == 11
+std::string mv_part0(Line const& l) { return mv_step<0, false>(l); }
+#endif
+#if !defined(C07_PART) || C07_PART == 12
+std::string mv_part1(Line const& l) { return mv_step<1, false>(l); }
+#endif
+#if !defined(C07_PART) || C07_PART == 13
+std::string mv_part2(Line const& l) { return mv_step<2, false>(l); }
+#endif
+#if !defined(C07_PART) || C07_PART == 14
+std::string mv_part3(Line const& l) { return mv_step<3, false>(l); }
+#endif
+#if !defined(C07_PART) || C07_PART == 15
+std::string mv_part4(Line const& l) { return mv_step<4, false>(l); }
+#endif
+
+#if !defined(C07_PART) || C07_PART == 16
+std::string mv_many0(Line const& l) { return mv_step<0, true>(l); }
+std::string mv_many1(Line const& l) { return mv_step<1, true>(l); }
+#endif
+#if !defined(C07_PART) || C07_PART == 17
+std::string mv_many2(Line const& l) { return mv_step<2, true>(l); }
+#endif
+#if !defined(C07_PART) || C07_PART == 18
+std::string mv_many3(Line const& l) { return mv_step<3, true>(l); }
+#endif
+
 #if !defined(C07_PART) || C07_PART == -1
 static Made make(std::string const& kind, std::string const& alts, std::size_t n)
 {
@@ -1617,6 +1892,7 @@ static Made make(std::string const& kind, std::string const& alts, std::size_t n
     if (auto p = make_part8(kind, alts, n)) { return p; }
     if (auto p = make_part9(kind, alts, n)) { return p; }
     if (auto p = make_part10(kind, alts, n)) { return p; }
+    if (kind == "mv") { return std::make_unique<MvCfg>(); }
     return nullptr;
 }
 
